@@ -25,7 +25,7 @@ from zoneinfo import ZoneInfo
 
 from .common import BUILD, COQ, REPO, cbool, clist, cz, ensure_repo_import, run_coqc
 from .family import Check, Family
-from .gcsa_fake import (DAY, FakeGoogleCalendar, Stored, WD, dn, fmt_exdate, midnight, parse_exdate)
+from .gcsa_fake import (DAY, FakeGoogleCalendar, Stored, WD, dn, fmt_exdate, midnight, nd, parse_exdate)
 
 ensure_repo_import()
 from calgebra.gcsa import Calendar, Event, Reminder  # noqa: E402
@@ -108,15 +108,41 @@ def coq_header(prop: str) -> str:
 # --------------------------------------------------------------------------------------------
 # running a history against the real adapter over the fake backend
 
-def rec_lines(rec):
-    parts = ["FREQ=" + ("WEEKLY" if rec["weekly"] else "DAILY")]
+def rec_bound(rec):
+    """the UNTIL / COUNT part of a backend-authored rule: (text, Coq token) or None.
+    rec["until"] = ["t", instant] (UNTIL=YYYYMMDDTHHMMSSZ) | ["d", day number] (UNTIL=YYYYMMDD)"""
+    u, c = rec.get("until"), rec.get("count")
+    if u is not None and u[0] == "t":
+        return "UNTIL=" + fmt_exdate(u[1]), f"(TUntil {c_exd(u[1])})"
+    if u is not None:
+        return "UNTIL=" + nd(u[1]).strftime("%Y%m%d"), f"(TUntilD {cz(u[1])})"
+    if c is not None:
+        return f"COUNT={c}", f"(TCount {cz(c)})"
+    return None
+
+
+def rec_parts(rec):
+    """the ';'-separated parts of the RRULE line, each with its Coq token.  The bound sits right after
+    FREQ (where Google's own UI writes it), after the rule parts, or after the EXDATE parts."""
+    out = [("FREQ=" + ("WEEKLY" if rec["weekly"] else "DAILY"), "TRule")]
+    bound, pos = rec_bound(rec), rec.get("bpos", "head")
+    if bound and pos == "freq":
+        out.append(bound)
     if rec["interval"] != 1:
-        parts.append(f"INTERVAL={rec['interval']}")
+        out.append((f"INTERVAL={rec['interval']}", "TRule"))
     if rec["byday"]:
-        parts.append("BYDAY=" + ",".join(WD[d] for d in rec["byday"]))
+        out.append(("BYDAY=" + ",".join(WD[d] for d in rec["byday"]), "TRule"))
+    if bound and pos == "head":
+        out.append(bound)
     for p in rec["parts"]:
-        parts.append("EXDATE:" + ",".join(fmt_exdate(t) for t in p))
-    lines = ["RRULE:" + ";".join(parts)]
+        out.append(("EXDATE:" + ",".join(fmt_exdate(t) for t in p), "(TEx " + clist([c_exd(t) for t in p]) + ")"))
+    if bound and pos == "tail":
+        out.append(bound)
+    return out
+
+
+def rec_lines(rec):
+    lines = ["RRULE:" + ";".join(t for t, _ in rec_parts(rec))]
     if rec["extra"]:
         lines.append("EXDATE:" + ",".join(fmt_exdate(t) for t in rec["extra"]))
     return lines
@@ -270,8 +296,7 @@ def c_orems(l):
 
 
 def c_rec(rec):
-    toks = ["TRule"] + (["TRule"] if rec["interval"] != 1 else []) + (["TRule"] if rec["byday"] else [])
-    toks += ["(TEx " + clist([c_exd(t) for t in p]) + ")" for p in rec["parts"]]
+    toks = [k for _, k in rec_parts(rec)]
     return (f"(mkR {cbool(rec['weekly'])} {cz(rec['interval'])} {clist([cz(d) for d in rec['byday']])} "
             f"{clist(toks)} {clist([c_exd(t) for t in rec['extra']])})")
 
@@ -446,6 +471,29 @@ def gen_master(rng, zone, eid, lo, hi):
         s = int((datetime(1970, 1, 1) + timedelta(days=start_day, seconds=sod)).replace(tzinfo=ZoneInfo(tz)).timestamp())
         ev["s"], ev["e"] = s, s + rng.choice([H, 2 * H, 3 * H, DAY, 26 * H])
         ev["pres"] = rng.choice(["zone", "fixed"])
+    # a series written by another client: bounded by UNTIL (inclusive: the last occurrence may start exactly
+    # at UNTIL; as an instant or as a date) or by COUNT, the last occurrence preferably inside the window
+    last = None
+    if rng.random() < 0.55:
+        fk = FakeGoogleCalendar(zone, [mk_stored(ev)])
+        full = fk.instances(fk.store[0], None, hi + 5 * DAY)            # from the master on
+        inside = [i for i, (s, _) in enumerate(full) if lo <= s < hi]
+        if full:
+            i = rng.choice(inside[:6] + inside[-2:]) if inside and rng.random() < 0.85 else rng.randrange(len(full))
+            last = full[i][0]
+            day = full[i][1][0] if allday else dn(datetime.fromtimestamp(last, ZoneInfo(ev["tz"])).date())
+            r = rng.random()
+            if r < 0.4:
+                ev["rec"]["until"] = ["t", last]                        # the last occurrence starts AT UNTIL
+            elif r < 0.55:
+                ev["rec"]["until"] = ["t", last + rng.choice([1, H, 86399 - last % DAY if last % DAY < 82000 else 1])]
+            elif r < 0.62:
+                ev["rec"]["until"] = ["t", last - 1]                    # ... just before it: it is out
+            elif r < 0.8:
+                ev["rec"]["until"] = ["d", day]
+            else:
+                ev["rec"]["count"] = i + 1
+            ev["rec"]["bpos"] = rng.choice(["freq", "head", "head", "tail"])
     # exclude a few instances the way the adapter writes them, and on a line of their own
     fk = FakeGoogleCalendar(zone, [mk_stored(ev)])
     inst = [s for s, _ in fk.instances(fk.store[0], lo - 5 * DAY, hi + 5 * DAY)]
@@ -453,6 +501,11 @@ def gen_master(rng, zone, eid, lo, hi):
         ev["rec"]["parts"] = [sorted(rng.sample(inst, min(len(inst), rng.choice([1, 2]))))]
     if inst and rng.random() < 0.2:
         ev["rec"]["extra"] = [rng.choice(inst)]
+    if last is not None and rng.random() < 0.12:                        # the last occurrence is excluded already
+        if ev["rec"]["parts"] and rng.random() < 0.5:
+            ev["rec"]["parts"] = [sorted(set(ev["rec"]["parts"][0] + [last]))]
+        else:
+            ev["rec"]["extra"] = sorted(set(ev["rec"]["extra"] + [last]))
     return ev
 
 
@@ -516,6 +569,51 @@ def next_id(store):
     return 1 + max([e["id"] for e in store if e["id"] is not None], default=0)
 
 
+def listing(zone, store, a, b):
+    """what a forward read of [a, b) over the initial store presents, by the simulation alone: for every
+    presented event the id of its series (None for a single event), in order.  Used to aim removals."""
+    fk = FakeGoogleCalendar(zone, [mk_stored(e) for e in store])
+    evs = fk.get_events(time_min=datetime.fromtimestamp(a, timezone.utc), time_max=datetime.fromtimestamp(b, timezone.utc),
+                        single_events=True, order_by="startTime")
+    return [g.recurring_event_id for g in evs if g.id is not None and g.summary is not None and g.end is not None]
+
+
+def aimed_removals(rng, zone, store, lo, hi, ops, reads):
+    """a read of the whole window followed by removals aimed at the instances of one series of the initial
+    store: its last occurrence (for a series bounded by UNTIL the one that may start exactly at UNTIL), the
+    first, one in the middle, the same one again, and the series itself"""
+    masters = [e for e in store if e["rec"] and e["id"] is not None and e["sum"] is not None]
+    if not masters:
+        return
+    bounded = [e for e in masters if e["rec"].get("until") or e["rec"].get("count")]
+    m = rng.choice(bounded if bounded and rng.random() < 0.8 else masters)
+    a, b = lo - rng.choice([0, DAY, 3 * DAY]), hi + rng.choice([0, DAY, 3 * DAY])
+    rv = rng.random() < 0.3
+    rows = listing(zone, store, a, b)
+    pos = [i for i, rid in enumerate(rows) if rid == f"e{m['id']}"]
+    if not pos:
+        return
+    if rv:
+        pos = [len(rows) - 1 - i for i in pos][::-1]       # the reverse read lists them backwards
+        last, first = pos[0], pos[-1]
+    else:
+        last, first = pos[-1], pos[0]
+    ops.append(["fetch", a, b, rv])
+    ref = len(ops) - 1
+    reads.append(ref)
+    prev = None
+    for _ in range(rng.choice([1, 2, 2, 3])):
+        what = rng.choice(["last", "last", "last", "mid", "first", "again"])
+        k = {"last": last, "first": first, "mid": rng.choice(pos)}.get(what, prev if prev is not None else last)
+        ops.append(["remove", ref, k])
+        prev = k
+        if rng.random() < 0.4:
+            ops.append(["fetch", a, b, rng.random() < 0.3])
+            reads.append(len(ops) - 1)
+    if rng.random() < 0.2:
+        ops.append(["rseries", ref, rng.choice(pos)])
+
+
 def gen_history(rng, with_slices, nops):
     zone = rng.choice(CAL_ZONES)
     lo, hi, edges = gen_window(rng)
@@ -523,9 +621,11 @@ def gen_history(rng, with_slices, nops):
         lo = hi - rng.choice([DAY, 20 * DAY, 31 * DAY, 45 * DAY])
     store = []
     for k in range(rng.choice([0, 1, 2, 3])):
-        store.append(gen_store_event(rng, zone, k + 1, lo, hi, edges) if rng.random() < 0.75
+        store.append(gen_store_event(rng, zone, k + 1, lo, hi, edges) if rng.random() < 0.7
                      else gen_master(rng, zone, k + 1, lo, hi))
     ops, reads = [], []
+    if rng.random() < 0.75:
+        aimed_removals(rng, zone, store, lo, hi, ops, reads)
 
     def read():
         a = lo - rng.choice([0, 0, DAY, 3 * DAY])
@@ -614,6 +714,10 @@ class GcsaFamily(Family):
             dist["op_" + o[0] + ("_rev" if o[0] in ("fetch", "slice") and o[3] else "")] += 1
         for e in case["store"]:
             dist["store_" + ("master" if e["rec"] else "allday" if e["allday"] else "timed_" + e["pres"])] += 1
+            if e["rec"]:
+                u = e["rec"].get("until")
+                dist["master_" + ("until_instant" if u and u[0] == "t" else "until_date" if u else
+                                  "count" if e["rec"].get("count") else "unbounded")] += 1
 
 
 # --------------------------------------------------------------------------------------------
@@ -659,6 +763,28 @@ def corpus_hist():
     yield dict(zone="UTC", next=2, fail=[],
                store=[_ev(1, s0, s0 + H, rec=dict(weekly=False, interval=1, byday=[], parts=[], extra=[s0 + 2 * DAY]))],
                ops=[["fetch", B0, B0 + 5 * DAY, False], ["remove", 0, 0], ["fetch", B0, B0 + 5 * DAY, False]])
+    # series written by another client, bounded by UNTIL (inclusive) / COUNT: a middle occurrence and then the
+    # LAST one (which starts exactly at UNTIL) are removed, the last one twice, and the range is read again
+    mon = int(datetime(2025, 1, 6, 10, 0, tzinfo=timezone.utc).timestamp())
+    jan1, mar1 = mon - 5 * DAY - 10 * H, mon + 54 * DAY
+    for bound in (dict(until=["t", mon + 21 * DAY], bpos="freq"), dict(until=["t", mon + 21 * DAY], bpos="tail"),
+                  dict(until=["d", dn(date(2025, 1, 27))]), dict(count=4), dict(until=["t", mon + 21 * DAY + 1])):
+        for parts in ([], [[mon + 7 * DAY]]):
+            rec = dict(weekly=True, interval=1, byday=[], parts=parts, extra=[], **bound)
+            n = 4 - len(parts)
+            yield dict(zone="UTC", next=2, fail=[], store=[_ev(1, mon, mon + H, rec=rec)],
+                       ops=[["fetch", jan1, mar1, False], ["remove", 0, n - 2], ["fetch", jan1, mar1, False],
+                            ["remove", 0, n - 1], ["fetch", jan1, mar1, True], ["remove", 0, n - 1],
+                            ["fetch", jan1, mar1, False]])
+    # the same for an all-day series on a calendar east of Greenwich: the occurrence of local day d starts at
+    # the instant of the calendar's midnight, and that instant is the UNTIL
+    d0 = dn(date(2025, 3, 24))
+    until = local_midnight("Europe/Berlin", d0 + 8)             # 3 occurrences later (every 4 days), across the DST change
+    rec = dict(weekly=False, interval=4, byday=[], parts=[], extra=[], until=["t", until])
+    a, b = local_midnight("Europe/Berlin", d0 - 2), local_midnight("Europe/Berlin", d0 + 30)
+    yield dict(zone="Europe/Berlin", next=2, fail=[], store=[_ev(1, d0, d0 + 1, allday=True, tz=None, rec=rec)],
+               ops=[["fetch", a, b, False], ["remove", 0, 2], ["fetch", a, b, False], ["rseries", 0, 0],
+                    ["fetch", a, b, False]])
 
 
 def corpus_fault():
@@ -679,7 +805,9 @@ class ReadFamily(GcsaFamily):
     n_quick, n_thorough = 400, 4000
     rule = ("stores of 3-12 backend events: timed (aware in a zone, fixed offset, naive + zone name; zones with DST), "
             "all-day and multi-day all-day (also on DST days of the calendar zone), events without id/summary/end, "
-            "recurring masters with EXDATEs, events on and across 30-day page edges; windows of 1 h to 95 days, "
+            "recurring masters (daily/weekly, unbounded or bounded by UNTIL as an instant or a date, or by COUNT, "
+            "with EXDATEs inside the RRULE line and on lines of their own), events on and across 30-day page edges; "
+            "windows of 1 h to 95 days, "
             "forward and reverse over the same window, open bounds; non-trivial = a read returned an event")
 
     def gen(self, rng, tier, n):
@@ -714,7 +842,11 @@ class HistFamily(GcsaFamily):
     name = "histories"
     corr = "corr_gcsa_out"
     n_quick, n_thorough = 400, 4000
-    rule = ("histories of 4-10 operations on small stores: add (timed, whole local days inferred or declared all-day), "
+    rule = ("histories of 4-10 operations on small stores (single events and series written by other clients: "
+            "daily/weekly masters, unbounded or ending with UNTIL=<instant of the last occurrence's start>, UNTIL "
+            "later/earlier, UNTIL=<date>, COUNT=n, with earlier EXDATEs in both forms): a read of the window followed "
+            "by removals aimed at one series (its last occurrence, the first, a middle one, the same one again, "
+            "then possibly the series), then add (timed, whole local days inferred or declared all-day), "
             "batch add via an iterator, add daily/weekly patterns (UTC or zoned, with exdates, whole-day and 24 h from "
             "09:00), remove / remove_series of events read or added earlier (instances, masters, singles, repeated "
             "removals), fetches and slices in both directions; non-trivial = some write succeeded and a later read "
@@ -775,7 +907,9 @@ ASSUME_GCSA = [
     "the Google Calendar API is SIMULATED by harness/gcsa_fake.py / Model/Gcsa.v (trusted): overlap rule of get_events "
     "(end > timeMin, start < timeMax, ordered by start), all-day events = local midnights of the calendar's zone, "
     "expansion of FREQ=DAILY/WEEKLY masters on the wall clock of the event's zone, EXDATE accepted inside the RRULE line "
-    "the way the adapter writes it (RFC 5545 and the real API define EXDATE as a line of its own)",
+    "the way the adapter writes it (RFC 5545 and the real API define EXDATE as a line of its own); UNTIL is an inclusive "
+    "bound on occurrence starts (UNTIL=<instant>Z: on the start instant, UNTIL=<date>: on the local date), COUNT=n keeps "
+    "the first n occurrences of the rule counted before exclusions",
     "patterns added are anchored daily/weekly patterns whose time of day avoids DST gaps; their expected occurrences are "
     "the pattern's own (RecurringPattern.fetch, subject of C07/C08), from the series start on",
     "events declared all-day by the caller are whole local days of the calendar's zone; naive (tz-less) datetimes from "
